@@ -9,7 +9,7 @@ FZ = os.path.join(ROOT, "fz")
 ENV = dict(os.environ, CARGO_NET_OFFLINE="true")
 TARGETS = {
     # target: (quick runs per job, thorough runs per job, max_len)
-    "index_ops": (6_000, 150_000, 2048),
+    "index_ops": (6_000, 60_000, 2048),
     "simd_kernels": (100_000, 2_000_000, 1024),
 }
 JOBS = {"quick": 4, "thorough": 14}
